@@ -45,7 +45,7 @@ class ModeEval:
         if f is None or "hir" not in f:
             raise NotComparison("unknown function %s" % fn)
         pname = f["params"][0]["name"]
-        v = self.ev(f["hir"], {pname: mode})
+        v = self.ev(self.ctx.prog.hir(fn), {pname: mode})
         self.cache[key] = v
         return v
 
